@@ -183,3 +183,120 @@ func TestC17Copy(t *testing.T) {
 	pbt.Run(t, "C17", "redelivered-copy scenario: 4-7 validators; a tall branch of two epochs is stored, a short branch whose checkpoint is justified by messages becomes the best chain; a copy of one of the tall branch's checkpoint blocks is delivered whose header carries 1..n forged signatures (no signature at all, over the reversed link, by a non-validator) on the link from its parent checkpoint; optional restart and second delivery; 0..threshold-1 validators then sign that link properly; the soundness oracle is evaluated after every step; non-trivial = forged and valid signatures together reach the threshold; distinct = case JSON",
 		pbt.Options{Sub: "redelivered-copy", Checks: pbt.Per(200, 16000)}, c17CopyGen, c17CopyExec)
 }
+
+// C17, sub-check "growing-block-links": a block in the middle of an epoch carries signatures in its
+// header as well (the field exists in every header).  They speak about no checkpoint and must never
+// count.  Linear chain; the block `at` blocks into the second epoch carries forged signatures on a
+// link from the first checkpoint; the node is restarted right after that block or some blocks later
+// (or not at all); the epoch is completed; a few validators sign cp1 -> cp2 properly, fewer than the
+// threshold.
+
+type c17Growing struct {
+	N          int    `json:"n"`      // 4..7
+	Epoch      int    `json:"epoch"`  // 2..4
+	At         int    `json:"at"`     // 1..epoch-1: offset of the carrying block in the second epoch
+	Forged     int    `json:"forged"` // forged slots from the front
+	Kind       string `json:"kind"`   // garbage, non-validator, for-final-hash (properly signed by non-validators over the final checkpoint hash)
+	Valid      int    `json:"valid"`
+	RestartLag int    `json:"restart_lag"` // -1: no restart; k: restart after k further blocks
+}
+
+func c17GrowingGen(t *rapid.T) c17Growing {
+	n := rapid.IntRange(4, 7).Draw(t, "n")
+	e := rapid.IntRange(2, 4).Draw(t, "epoch")
+	thr := n*2/3 + 1
+	valid := rapid.IntRange(0, thr-1).Draw(t, "valid")
+	return c17Growing{N: n, Epoch: e, At: rapid.IntRange(1, e-1).Draw(t, "at"), Forged: rapid.IntRange(1, n-valid).Draw(t, "forged"),
+		Kind: rapid.SampledFrom([]string{"garbage", "non-validator", "for-final-hash"}).Draw(t, "kind"), Valid: valid, RestartLag: rapid.IntRange(-1, 2).Draw(t, "restartlag")}
+}
+
+func c17GrowingExec(c c17Growing, x *pbt.Ctx) error {
+	if c.N < 4 || c.N > 10 || c.Epoch < 2 || c.Epoch > 4 || c.At < 1 || c.At >= c.Epoch || c.Forged < 0 || c.Valid < 0 || c.Forged+c.Valid > c.N || c.RestartLag < -1 {
+		return nil
+	}
+	thr := c.N*2/3 + 1
+	if c.Valid >= thr {
+		return nil
+	}
+	e := c.Epoch
+	td := ck.TreeDesc{Params: ck.Params{Epoch: uint64(e), Validators: c.N, NodeKey: -1}}
+	for i := 0; i < 2*e+1; i++ {
+		td.Blocks = append(td.Blocks, ck.BlockDesc{Parent: i})
+	}
+	h, err := newHist(evCase{Tree: td})
+	if err != nil {
+		return err
+	}
+	defer h.n.Close()
+	w := h.w
+	cp1, cp2 := e, 2*e
+	carrier := e + c.At
+	vals := w.ValidatorsFor(cp2)
+	sh := w.Hash(cp1)
+	var links types.SupLinks
+	for slot := 0; slot < c.Forged && slot < len(vals); slot++ {
+		var sig []byte
+		switch c.Kind {
+		case "garbage":
+			sig = make([]byte, 64)
+			for i := range sig {
+				sig[i] = byte(i*13 + slot + 1)
+			}
+		case "non-validator":
+			sig = ck.OutsiderKey().Sign(ck.VoteMessage(sh, w.Hash(carrier)))
+		case "for-final-hash":
+			sig = ck.OutsiderKey().Sign(ck.VoteMessage(sh, w.Hash(cp2)))
+		default:
+			return nil
+		}
+		links.AddSupLink(w.Blocks[cp1].Block.Height, sh, sig, slot)
+	}
+	before := w.Hash(carrier)
+	w.Blocks[carrier].Block.SupLinks = links
+	if w.Hash(carrier) != before {
+		return fmt.Errorf("HARNESS: the signatures in the header changed the block hash")
+	}
+	desc := fmt.Sprintf("growing-block-links scenario %+v", c)
+	for i := 1; i <= 2*e+1; i++ {
+		if i > cp2 {
+			// before the block after the second checkpoint: the proper signatures
+			for v := len(vals) - c.Valid; v < len(vals); v++ {
+				msg := w.Vote(ck.KeyIndex(vals[v]), cp1, cp2)
+				var verr error
+				_, hung, dump := callWithWatchdog(callLimit, func() error { verr = h.n.Chain.ProcessBlockVerification(msg); return nil })
+				if hung {
+					return hangError("ProcessBlockVerification", dump)
+				}
+				if verr == nil {
+					h.ffg.observe(msg.PubKey, cp1, cp2, msg.Signature)
+				}
+				if err := checkFFGSound(h, x, fmt.Sprintf("%s after validator %d signed #%d->#%d", desc, v, cp1, cp2)); err != nil {
+					return err
+				}
+			}
+		}
+		if _, err := h.step(ev{K: "b"}); err != nil {
+			return err
+		}
+		if c.RestartLag >= 0 && i == carrier+c.RestartLag && i <= 2*e {
+			if err := h.n.Restart(); err != nil {
+				return fmt.Errorf("restart failed: %v", err)
+			}
+			x.Class("growing/restart-lag-%d", c.RestartLag)
+		}
+		if err := checkFFGSound(h, x, fmt.Sprintf("%s after block #%d", desc, i)); err != nil {
+			return err
+		}
+	}
+	x.Class("growing/%s", c.Kind)
+	x.NonTrivial = c.Forged+c.Valid >= thr
+	if x.NonTrivial && c.RestartLag == 0 {
+		x.Class("growing/threshold-reached-with-forged-and-restart-at-the-carrier")
+	}
+	return nil
+}
+
+func TestC17Growing(t *testing.T) {
+	pbt.Run(t, "C17", "growing-block-links scenario: linear chain over two epochs, 4-7 validators; a block in the middle of the second epoch carries 1..n forged signatures in its header on a link from the first checkpoint (no signature at all, by a non-validator over that block's hash, by a non-validator over the final checkpoint hash); restart right after it, one or two blocks later, or never; the epoch is completed and 0..threshold-1 validators sign cp1 -> cp2 properly; the soundness oracle is evaluated after every block and message; non-trivial = forged and valid signatures together reach the threshold; distinct = case JSON",
+		pbt.Options{Sub: "growing-block-links", Checks: pbt.Per(200, 16000)}, c17GrowingGen, c17GrowingExec)
+}
